@@ -5,6 +5,17 @@ From Coq Require Import List NArith Bool.
 From Quill Require Import Queue.BQDefs BT.BTModel Backend.BEDefs Backend.BEExec Backend.BEInv Backend.BEDispatch Backend.BEFault TieC10.
 Import ListNotations.
 Local Open Scope N_scope.
+From Quill Require TieBE ExpectedBE.
+
+(* T-src: the BackendWorker methods this property's part of M-BE re-states are, statement by statement, the ones the model
+   was written against and compared with (ExpectedBE.v; the whole loop is tied in Properties_C03.C03_tie_backend_loop) *)
+Theorem C10_tie_backend_methods :
+  QuillGen.SrcFacts.sk_be_populate_formatted_log_message = Quill.ExpectedBE.sk_be_populate_formatted_log_message /\
+  QuillGen.SrcFacts.sk_be_populate_transit_event_from_frontend_queue = Quill.ExpectedBE.sk_be_populate_transit_event_from_frontend_queue /\
+  QuillGen.SrcFacts.sk_be_process_lowest_timestamp_transit_event = Quill.ExpectedBE.sk_be_process_lowest_timestamp_transit_event /\
+  QuillGen.SrcFacts.sk_be_flush_and_run_active_sinks = Quill.ExpectedBE.sk_be_flush_and_run_active_sinks.
+Proof. exact (conj TieBE.src_be_populate_formatted_log_message (conj TieBE.src_be_populate_transit_event_from_frontend_queue (conj TieBE.src_be_process_lowest_timestamp_transit_event TieBE.src_be_flush_and_run_active_sinks))). Qed.
+Print Assumptions C10_tie_backend_methods.
 
 Theorem C10_tie_catches :
   QuillGen.SrcFacts.be_format_catch_all = true /\ QuillGen.SrcFacts.be_format_catch_std = true /\
